@@ -337,9 +337,11 @@ def canon_value(t, v):
         return ["rooms", canon_rooms(v)]
     if k == "ValuedRooms":
         rooms, vals = v
-        return ["vrooms", sorted((sorted(map(tuple, r)), repr(x)) for r, x in zip(rooms, vals))]
+        return ["vrooms", len(rooms), len(vals), sorted((sorted(map(tuple, r)), repr(x)) for r, x in zip(rooms, vals))]
     if k == "Tupl":
         out = []
+        if len(t[1]) != len(v):
+            return ["tuple-arity", len(v), repr(v)[:200]]
         for c, comp in zip(t[1], v):
             if c[0] in ("Rooms", "ValuedRooms", "Tupl", "Grid", "Seq") and len(comp) == 1:
                 out.append([canon_value(c, comp[0])])
